@@ -13,7 +13,7 @@ MODES = {"loose": "ALoose", "strict": "AStrict", "center": "ACenter"}
 RULE = ("features with n = 1..12 rows of dimension 2-D / 3-D / 4-D whose first entry encodes the row index, windows "
         "with duration, step in 1..3 ticks and start in -1..1: every focus segment with bounds in -8..n*step+8 "
         "(sampled in quick) left of, right of, straddling either end of, or covering the data, timeline focuses of up "
-        "to 3 segments, each mode, fixed in {None, duration, duration+step, duration+3*step+1} (long enough for >= 0 "
+        "to 3 segments, each mode, fixed in {None, 0, duration, duration+step, duration+3*step+1} (long enough for >= 0 "
         "frames); return_data=False on segment focuses; iteration, extent, NumPy ufuncs and align(self) asserted in "
         "the driver; regime K0; non-trivial = some requested frame lies outside the data")
 
@@ -27,7 +27,7 @@ def generate(rng, tier):
             focuses = [[a, b] for a in range(-8, hi) for b in range(a, hi + 1)]
             for f in rng.sample(focuses, 60 if tier == "thorough" else 12):
                 m = rng.choice(list(MODES))
-                fixed = rng.choice([None, None, d, d + s, d + 3 * s + 1])
+                fixed = rng.choice([None, None, d, d + s, d + 3 * s + 1, 0])
                 cases.append({"k": "crop", "regime": regime, "dur": d, "step": s, "start": st, "n": n,
                               "focus": ["seg", f], "mode": m, "fixed": fixed, "ndim": rng.choice([2, 3, 4])})
                 cases.append({"k": "cropwin", "regime": regime, "dur": d, "step": s, "start": st, "n": n,
